@@ -1,10 +1,10 @@
 SPECIFICATION Spec
-CONSTANTS Stride = 29
+CONSTANTS Stride = 61
           Stride3 = 7
           Core = "sign"
           Offset = 0
           PerPair = 1
-          NCand = 24
+          NCand = 16
           Parts = {"flat", "nest"}
 INVARIANT PrinterSound
 CHECK_DEADLOCK FALSE
